@@ -480,9 +480,39 @@ def rule_fourier_symmetric(chk, prog):
   chk.at_least('C10.2-fourier-no-privileged-phase', 22)
 
 
+def rule_mask_pairs(chk, prog):
+  """A rotation about the axis mixes the cos(mλ) and sin(mλ) members of one zonal wavenumber, so a mask (which also
+  multiplies the derivative recurrence weights) must keep or drop both slots of a pair together."""
+  import sympy as sp
+  from rules import c01
+  rule = 'C10.5-mask-keeps-cos-sin-pairs'
+  for cname in ('RealSphericalHarmonics', 'FastSphericalHarmonics'):
+    c = prog.cls(f'{SH}.{cname}')
+    f = c.find_method('mask')
+    site, loc = f'{SH}.{cname}.mask', (f.file, f.lineno)
+    for kind, cj, lim in c01.mask_conjuncts(prog, cname):
+      txt = sym.show(cj, maxdepth=4)[:120]
+      if kind == 'triangle':
+        chk.ok(rule, f'{site}: the triangle condition uses |m| (same verdict for the cos and the sin slot of a wavenumber)', txt, loc)
+      elif kind == 'zero-imag-row':
+        chk.ok(rule, f'{site}: the only single slot removed is sin(0·λ) ≡ 0', txt, loc)
+      elif kind == 'l-limit':
+        chk.ok(rule, f'{site}: the total-wavenumber limit does not depend on the slot', txt, loc)
+      elif lim is not None and sym.contains(cj, lambda t: t.k == 'sub' and t.a[1] == sym.const(0)):
+        # slots of wavenumber k ≥ 1 are (2k, 2k+1) in the zero-imag layout: `i < E` keeps pairs intact iff E is even
+        par = sp.simplify(sp.Mod(lim, 2))
+        chk.check(par == 0, rule, f'{site}: the slot limit along the zonal axis is even, so `i < limit` never separates the (2k, 2k+1) pair of a wavenumber',
+                  f'limit = {lim}, limit mod 2 = {par}', loc, 'even limit (2·longitude_wavenumbers)', f'{lim} (mod 2 = {par})')
+      else:
+        reads_m = sym.contains(cj, lambda t: t.k == 'sub' and t.a[1] == sym.const(0) and util.strip(t.a[0]).k == 'attr' and util.strip(t.a[0]).a[1] == 'modal_axes')
+        chk.check(not reads_m, rule, f'{site}: conjunct {txt} treats +m and −m alike', 'reads the signed zonal wavenumber outside abs()' if reads_m else 'does not read the signed zonal wavenumber', loc)
+  chk.at_least(rule, 5)
+
+
 def run(chk, prog, tier):
   rule_longitude_blind(chk, prog)
   rule_fourier_symmetric(chk, prog)
+  rule_mask_pairs(chk, prog)
   rule_metric_parity(chk, prog)
   rule_tendencies(chk, prog)
   chk.assume('latitude nodes and quadrature weights are symmetric about the equator (roots_legendre / symmetric linspace; decided structurally under C01.6)',
